@@ -48,7 +48,8 @@ Part B — the parameter handling.
   of `SeqToHashes` into the factory's tree-backed sketch and into the directly created array-backed
   one give the same sketch, the same error behaviour, the same md5 and the same JSON;
 * `names_merged`, `names_singleton`, `names_per_file`, `names_stdin`: per record or merged, named
-  from file or first record;
+  from file or first record; standard input is recorded as the empty file name and lands in `-.sig`;
+  `skip_existing`: an input whose output file exists is skipped in the per-file layouts unless `--force`;
 * `parse_refusal_iff` / `item_refusal_iff` / `refusal_classes`: total classification of the refusals
   with their reasons (one per `raise` site); `parse_wellformed`, `parse_canonical_roundtrip`: every
   well-formed string is read as its items mean and round-trips through its canonical form;
@@ -539,7 +540,7 @@ fed every record of every file in order; the file name recorded is that of the L
 theorem names_merged (nm : List Char) (files : List SeqFile)
     (h : (files.flatMap (fun f => f.records.map Prod.snd)) ≠ []) :
     plan (.merge nm) files =
-      [⟨some nm, recordedFilename (lastName files), files.flatMap (fun f => f.records.map Prod.snd)⟩] :=
+      [⟨some nm, recordedFilename (lastName files), files.flatMap (fun f => f.records.map Prod.snd), lastName files⟩] :=
   Sketch.plan_merge nm files h
 
 /-- … and nothing is written when no record was read -/
@@ -550,7 +551,7 @@ theorem names_merged_empty (nm : List Char) (files : List SeqFile)
 /-- `--singleton`: one signature set per record, named after the record, in order -/
 theorem names_singleton (files : List SeqFile) :
     plan .singleton files =
-      files.flatMap (fun f => f.records.map (fun r => ⟨some r.1, recordedFilename f.name, [r.2]⟩)) ∧
+      files.flatMap (fun f => f.records.map (fun r => ⟨some r.1, recordedFilename f.name, [r.2], f.name⟩)) ∧
     (plan .singleton files).length = (files.map (fun f => f.records.length)).sum := by
   refine ⟨?_, Sketch.plan_singleton_length files⟩
   unfold plan
@@ -565,12 +566,27 @@ theorem names_per_file (nff : Bool) (f : SeqFile) :
     (f.records = [] → unitsOfFile false nff f = []) ∧
     (∀ first rest, f.records = first :: rest →
       unitsOfFile false nff f =
-        [⟨if nff then some first.1 else none, recordedFilename f.name, f.records.map Prod.snd⟩]) :=
+        [⟨if nff then some first.1 else none, recordedFilename f.name, f.records.map Prod.snd, f.name⟩]) :=
   ⟨Sketch.unitsOfFile_empty false nff f, fun first rest h => Sketch.unitsOfFile_perFile nff f first rest h⟩
 
-/-- standard input is recorded as the empty file name, every other name as it is -/
-theorem names_stdin : recordedFilename "-".toList = [] ∧ recordedFilename "a.fa".toList = "a.fa".toList := by
-  decide
+/-- standard input is recorded as the empty file name, every other name as it is; in the per-file layouts
+its signatures land in `-.sig` (the output name comes from the name as typed, not from the recorded one) -/
+theorem names_stdin : recordedFilename "-".toList = [] ∧ recordedFilename "a.fa".toList = "a.fa".toList ∧
+    planOutputs (.perFile false) .cwd [⟨"-".toList, [("r".toList, [65])]⟩] =
+      .ok [("-.sig".toList, ⟨none, [], [[65]], "-".toList⟩)] :=
+  ⟨by decide, by decide, by rfl⟩
+
+/-- an input whose output file already exists is skipped in the per-file layouts unless `--force` is
+given; with `-o` and with `--merge` an existing file plays no role (driver flags `+pre` / `+force`) -/
+theorem skip_existing (mode : NameMode) (o : OutMode) (ex : SeqFile → Bool) (files : List SeqFile) :
+    skipExisting mode .single false ex files = files ∧
+    (∀ nm force, skipExisting (.merge nm) o force ex files = files) ∧
+    skipExisting mode o true ex files = files ∧
+    (∀ nff, skipExisting (.perFile nff) .cwd false ex files = files.filter (fun f => !ex f)) ∧
+    (∀ b, skipExisting .singleton (.dir b) false ex files = files.filter (fun f => !ex f)) := by
+  refine ⟨?_, fun nm force => rfl, ?_, fun nff => rfl, fun b => rfl⟩
+  · cases mode <;> rfl
+  · cases mode <;> cases o <;> rfl
 
 /-- where the signatures go: with `-o FILE` everything lands in that file, in order; `--merge`
 needs `-o`; without `-o` every signature set lands in `basename(input).sig`, in the output
@@ -581,7 +597,7 @@ theorem outputs (mode : NameMode) (files : List SeqFile) :
     (∀ nm, planOutputs (.merge nm) .cwd files = .error .exit ∧
            ∀ ex, planOutputs (.merge nm) (.dir ex) files = .error .exit) ∧
     (∀ nff, planOutputs (.perFile nff) .cwd files =
-      .ok ((plan (.perFile nff) files).map (fun u => (basename u.filename ++ ".sig".toList, u)))) ∧
+      .ok ((plan (.perFile nff) files).map (fun u => (basename u.source ++ ".sig".toList, u)))) ∧
     (∀ nff, Gen.sketchCreatesOutdir = false → plan (.perFile nff) files ≠ [] →
       planOutputs (.perFile nff) (.dir false) files = .error .noDir) := by
   refine ⟨?_, fun nm => ⟨rfl, fun ex => rfl⟩, fun nff => rfl, ?_⟩
